@@ -2220,7 +2220,7 @@ ure_exec(ure_dfa_t dfa, int flags, ucs2_t *text, unsigned long textlen,
 #endif
 {
   int i, j, matched, found, skip;
-  unsigned long ms, me;
+  unsigned long ms, me, acc_me;
   ucs4_t c;
   ucs2_t *sp, *ep, *lp;
   _ure_dstate_t *stp;
@@ -2242,6 +2242,7 @@ ure_exec(ure_dfa_t dfa, int flags, ucs2_t *text, unsigned long textlen,
   ep = sp + textlen;
 
   ms = me = ~0;
+  acc_me = ~0;
 
   stp = dfa->states;
 
@@ -2338,6 +2339,14 @@ ure_exec(ure_dfa_t dfa, int flags, ucs2_t *text, unsigned long textlen,
 	stp = dfa->states + stp->trans[i].next_state;
 
 	/*
+	 * Remember the longest match seen in this attempt: the DFA
+	 * may go on and die in a non-accepting state ("(ab)+" on
+	 * "ababa ").
+	 */
+	if (stp->accepting)
+	  acc_me = me;
+
+	/*
 	 * If the match was an EOL anchor, adjust the pointer past the
 	 * separator that caused the match.  The correct match
 	 * position has been recorded already.
@@ -2365,10 +2374,16 @@ ure_exec(ure_dfa_t dfa, int flags, ucs2_t *text, unsigned long textlen,
 	 * failed attempt: an occurrence may begin inside the text
 	 * consumed so far ("ab" in "aab").
 	 */
-	if (ms != (unsigned long) ~0)
-	  sp = text + ms + 1;
-	stp = dfa->states;
-	ms = me = ~0;
+	if (acc_me != (unsigned long) ~0) {
+	  /* The attempt passed an accepting state: that match stands. */
+	  me = acc_me;
+	  found = 1;
+	} else {
+	  if (ms != (unsigned long) ~0)
+	    sp = text + ms + 1;
+	  stp = dfa->states;
+	  ms = me = ~0;
+	}
       } else
 	/*
 	 * The last state was accepting, so terminate the matching
@@ -2392,6 +2407,12 @@ ure_exec(ure_dfa_t dfa, int flags, ucs2_t *text, unsigned long textlen,
 	    } else
 	      break;
 	  }
+	}
+	if (found == 0 && acc_me != (unsigned long) ~0) {
+	  /* End of the text in a non-accepting state, but the attempt
+	     passed an accepting one. */
+	  me = acc_me;
+	  found = 1;
 	}
       } else {
 	/*
